@@ -21,9 +21,12 @@ WORK = os.path.join(yv.yvbuild.BUILD, "c18")
 RULES = '''rule r1 : t1 { meta: m = "x" strings: $a = "abcd" $b = "efgh" condition: any of them }
 rule r2 { condition: filesize == 0 }
 rule r3 : t2 { strings: $c = /x+y/ condition: #c > 1 }
-rule r4 { condition: ext_i == 7 and filesize > 2 }
+rule r4 { condition: ext_i == 7 and ext_f > 2.2 and ext_f < 2.8 and ext_b and ext_s == "hello" and filesize > 2 }
+rule r5 { condition: ext_i != 7 or ext_f == 2.0 or ext_f == 3.0 or not ext_b or ext_s != "hello" }
 '''
 FILES = [("f_a.txt", b"--abcd--efgh--abcd"), ("f_b.txt", b"nothing to see"), ("f_empty", b""), ("f_c.txt", b"xxy abcd xy xxxy"), ("f_pe", None)]
+EXT = ["-d", "ext_i=7", "-d", "ext_f=2.5", "-d", "ext_b=true", "-d", "ext_s=hello"]          # one external of every type; the float has a fraction that matters
+EXT_NEUTRAL = ["-d", "ext_i=0", "-d", "ext_f=0.0", "-d", "ext_b=false", "-d", "ext_s=zzz"]
 OPTSETS = [[], ["-s"], ["-s", "-L", "-X"], ["-m", "-g", "-e"], ["-c"], ["-n"], ["-t", "t1"], ["-i", "r1"], ["-f"]]
 
 
@@ -164,7 +167,7 @@ def schedule_part(ck, quick, stats):
         d0 = Driver(exe)
         for n in ((2, 3) if quick else (0, 1, 2, 3, 4)):
             for opts in (OPTSETS[:3] + OPTSETS[4:5] if quick else OPTSETS):
-                base = ["-d", "ext_i=7"] + opts + [rules]
+                base = EXT + opts + [rules]
                 # reference: every file alone, single-file mode (no scanning threads)
                 exp_blocks, exp_lines, exp_exit = collections.Counter(), set(), 0
                 for (name, _) in FILES[:n]:
@@ -207,8 +210,8 @@ def blackbox_part(ck, quick):
         return p.returncode, p.stdout.decode(errors="replace"), p.stderr.decode(errors="replace")
     # compiled forms: external given at compile time, at scan time, or both
     c1 = os.path.join(WORK, "r_ext7.yarc"); c2 = os.path.join(WORK, "r_ext0.yarc")
-    run([bins["yarac"], "-d", "ext_i=7", rules, c1]); run([bins["yarac"], "-d", "ext_i=0", rules, c2])
-    forms = [("source", ["-d", "ext_i=7", rules]), ("compiled:ext-at-compile-time", ["-C", c1]), ("compiled:ext-at-scan-time", ["-C", "-d", "ext_i=7", c2]), ("compiled:both", ["-C", "-d", "ext_i=7", c1])]
+    run([bins["yarac"]] + EXT + [rules, c1]); run([bins["yarac"]] + EXT_NEUTRAL + [rules, c2])
+    forms = [("source", EXT + [rules]), ("compiled:ext-at-compile-time", ["-C", c1]), ("compiled:ext-at-scan-time", ["-C"] + EXT + [c2]), ("compiled:both", ["-C"] + EXT + [c1])]
     for opts in (OPTSETS if not quick else OPTSETS[:2] + OPTSETS[3:5]):
         ref = None
         for fname, fargs in forms:
@@ -232,10 +235,10 @@ def blackbox_part(ck, quick):
     # -l N : the limit counter is process-global by design ("abort scanning after matching a number of rules"), so the per-file equivalence cannot hold for a directory
     lim = os.path.join(WORK, "limdir"); os.makedirs(lim)
     for i in range(3): open(os.path.join(lim, "m%d" % i), "wb").write(b"--abcd--")
-    rc, out_dir, _ = run([bins["yara"], "-d", "ext_i=7", "-l", "2", "-p", "1", rules, lim]); n += 1
+    rc, out_dir, _ = run([bins["yara"]] + EXT + ["-l", "2", "-p", "1", rules, lim]); n += 1
     per_file = []
     for i in range(3):
-        _, o, _ = run([bins["yara"], "-d", "ext_i=7", "-l", "2", rules, os.path.join(lim, "m%d" % i)]); per_file += [l for l in o.split("\n") if l]; n += 1
+        _, o, _ = run([bins["yara"]] + EXT + ["-l", "2", rules, os.path.join(lim, "m%d" % i)]); per_file += [l for l in o.split("\n") if l]; n += 1
     if sorted(l for l in out_dir.split("\n") if l) != sorted(per_file):
         ck.violation("C18:blackbox:-l:limit-is-process-global", dict(directory_lines=out_dir.split("\n"), per_file_lines=per_file))
     ck.sub("blackbox", runs=n, files=200)
